@@ -227,6 +227,19 @@ def find_warn_flag(fn: ast.AST, category="ConvergenceWarning") -> Optional[Tuple
             for blk in (n.body, n.orelse):
                 if any(is_warn_call(s, category) for s in blk if not isinstance(s, (ast.FunctionDef, ast.ClassDef))):
                     return name, n
+    # guard-clause form: `if flag: return ..` before the warning - the warning runs exactly when the flag test failed
+    from .model import effective_conditions, enclosing_stmt
+    for n in own_nodes(fn):
+        if isinstance(n, ast.stmt) and not isinstance(n, (ast.FunctionDef, ast.ClassDef, ast.If, ast.For, ast.While, ast.With, ast.Try)) \
+                and is_warn_call(n, category):
+            for text, _pol in effective_conditions(n):
+                t = ast.parse(text, mode="eval").body
+                name = flag_only_test(t)
+                if name is None:
+                    continue
+                guard = next((g for g in own_nodes(fn) if isinstance(g, ast.If) and flag_only_test(g.test) == name), None)
+                if guard is not None:
+                    return name, guard
     return None
 
 
